@@ -6,8 +6,8 @@ COMPONENTS = ["s_xdsauth"]
 T4 = []
 PROOF_MODULES = ["GrpcProofs.Properties.C44"]
 THEOREMS = ["GrpcProofs.C44." + t for t in (
-    "fallback_only_if_failed_before_any_response_and_uncached_watch_partial", "fallback_needs_uncached_watch",
-    "fallback_full_statement_counterexample", "fallback_if", "no_fallback_otherwise",
+    "fallback_only_if_failed_before_any_response_and_uncached_watch", "fallback_needs_uncached_watch",
+    "fallback_if", "no_fallback_otherwise",
     "channels_are_prefix_up_to_active", "fallback_goes_to_next",
     "revert_on_higher_priority_update_releases_lower", "update_from_active_keeps_servers",
     "updates_below_active_ignored")]
@@ -16,21 +16,22 @@ TECHNIQUE = ("Lean 4 theorems about the port of handleADSStreamFailure / fallbac
              "(authority.go), for all authority states and events, plus an invariant over all histories without stale reports; "
              "T2 correspondence on the real xdsclient.XDSClient with 1-3 scripted management servers under testing/synctest: active "
              "server, channels built/closed, per-server subscriptions and the authority's channel sets diffed after every event")
-LEVEL_TEXT = ("Machine-checked proof that in the model of the authority the active server moves to a lower priority only on a stream "
-              "failure before any response while a watched resource is uncached, to the first server after the FAILING one without a "
-              "channel (all resources are re-subscribed there); that the literal statement (the failing server is the active one) is "
-              "false of the code (counterexample theorem = known finding F19); that without stale reports the channels held are exactly "
-              "servers 0..active and a fallback goes to active+1; that an update from a higher-priority server makes it active, is "
-              "processed, and unsubscribes + releases every server below it; and that updates from below the active server change "
-              "nothing and reach nobody. The model is replayed against the real client on every run.")
-LEVEL_NOTE = ("PARTIAL on the first clause: the unchanged code falls back when ANY server's stream fails before a response, not only the "
-              "active one's (F19: primary still down + secondary connected but silent -> tertiary is opened and made active after the "
-              "next failed primary attempt), and also on a stale failure report of a channel it has just released (F20, needs the report "
-              "to queue behind the update that reverts). Both are reproduced on the real client by this check and listed in "
-              "known_findings/C44.jsonl; half of the 3-server cases run under monitor c44b (every clause but 'the active server "
-              "failed') so that the known violation does not hide others. Observation checked on the real code: handleADSResourceUpdate "
-              "returns before arming onDone for an update from below the active server (theorem updates_below_active_ignored, "
-              "done = false; reproduced with two authorities sharing a channel by harness/synct/c_xdsauth_obs_test.go).")
+LEVEL_TEXT = ("Machine-checked proof that in the model of the authority the active server moves to a lower priority only when the "
+              "ACTIVE server's stream fails before any response while a watched resource is uncached, and then to the first server "
+              "after it without a channel (all resources are re-subscribed there, watchers hear nothing); that failures of other "
+              "servers, failures after a response, and failures with everything cached never move it; that in every history the "
+              "channels held are exactly servers 0..active and a fallback goes to active+1; that an update from a higher-priority "
+              "server makes it active, is processed, and unsubscribes + releases every server below it; and that updates from below "
+              "the active server change nothing and reach nobody. The model is replayed against the real client on every run.")
+LEVEL_NOTE = ("Full statement since /repo 98104fb (handleADSStreamFailure now requires the failing server to be the active one); before "
+              "it the first theorem was _partial with a counterexample theorem, findings F40 (non-active failure) and F41 (stale report "
+              "of a released channel), both now `fixed` in known_findings/C44.jsonl; reverting that commit makes this check report the "
+              "violation again with a failing input. Observations that are NOT clauses of C44 (kept in the notes, reproduced on the real "
+              "code): handleADSResourceUpdate returns before arming onDone for an update from below the active server (theorem "
+              "updates_below_active_ignored has done = false; with two authorities sharing the channel its ADS flow control wedges: "
+              "harness/synct/c_xdsauth_obs_test.go, patch in known_findings/patches); a resource first watched during fallback is "
+              "subscribed only on the fallback server and is requested from no server after the revert (theorem "
+              "watch_during_fallback_is_lost_on_revert, patch in known_findings/patches).")
 GAP = ("the order in which same-instant reports of different channels reach the authority (fixed by the harness pacing: lowest server "
        "first); multi-authority sharing of channels; real transports")
 ASSUMPTIONS = ["transport creation (TransportBuilder.Build) never fails", "backoff constant 1 s, watch expiry 2505 ms (harness configuration)"]
@@ -83,11 +84,7 @@ def gen(rng, tier):
     for i in range(n):
         ns = rng.choice([1, 2, 2, 2, 3, 3])
         ign = "".join(rng.choice("001") for _ in range(ns))
-        # with 3 servers the unchanged tree violates the "active server failed" sub-clause (known findings F19/F20);
-        # half of those cases run under monitor c44b (all clauses but that one) so the first known violation of a
-        # case does not hide anything else
-        mon = "c44b" if ns == 3 and rng.random() < 0.5 else "c44"
-        ops = ["cfg %d %s %s" % (ns, ign, mon)]
+        ops = ["cfg %d %s c44" % (ns, ign)]
         if rng.random() < 0.5:
             ops += directed(rng, ns)
             # re-number watcher ids of the random tail so they do not collide with the skeleton's
